@@ -31,6 +31,21 @@ impl SetU32 {
     }
 }
 
+impl SetU32 {
+    /// The tagged word and, for a heap set, `(sz, cap, bits)` — like `verif_repr` but without
+    /// copying the array (cheap enough to call after every operation on large sets).
+    pub fn verif_header(&self) -> (usize, Option<(usize, usize, u32)>) {
+        let word = self.0 as usize;
+        match self.internal() {
+            Internal::Empty | Internal::Stack(_) => (word, None),
+            _ => {
+                let b = unsafe { &(*self.0).b };
+                (word, Some((b.sz as usize, b.cap as usize, b.bits)))
+            }
+        }
+    }
+}
+
 /// `p_lookfor`: 0 = empty spot, 1 = key found, 2 = need insert.
 pub fn p_lookfor(k: u32, a: &[u32], offset: u32) -> (u8, usize) {
     match super::p_lookfor(k, a, offset) {
